@@ -34,13 +34,13 @@ type Member struct {
 	V *Value
 }
 
-func Null() *Value            { return &Value{T: "null"} }
-func Bool(b bool) *Value      { return &Value{T: "bool", B: b} }
-func Num(lit string) *Value   { return &Value{T: "num", Lit: lit} }
-func Str(s string) *Value     { return &Value{T: "str", Cp: []rune(s)} }
-func StrCp(cp []rune) *Value  { return &Value{T: "str", Cp: cp} }
-func Arr(e ...*Value) *Value  { return &Value{T: "arr", E: e} }
-func Obj(m ...Member) *Value  { return &Value{T: "obj", M: m} }
+func Null() *Value                { return &Value{T: "null"} }
+func Bool(b bool) *Value          { return &Value{T: "bool", B: b} }
+func Num(lit string) *Value       { return &Value{T: "num", Lit: lit} }
+func Str(s string) *Value         { return &Value{T: "str", Cp: []rune(s)} }
+func StrCp(cp []rune) *Value      { return &Value{T: "str", Cp: cp} }
+func Arr(e ...*Value) *Value      { return &Value{T: "arr", E: e} }
+func Obj(m ...Member) *Value      { return &Value{T: "obj", M: m} }
 func M(k string, v *Value) Member { return Member{K: []rune(k), V: v} }
 
 // NumClass is a canonical spelling of the numeric value of a number literal
